@@ -3232,7 +3232,7 @@ class QuicConnection:
                         discarded.add(stream)
                         continue
 
-                    if stream.receiver.stop_pending:
+                    if stream.receiver.stop_pending and not stream.is_blocked:
                         # STOP_SENDING
                         self._write_stop_sending_frame(builder=builder, stream=stream)
 
